@@ -140,3 +140,44 @@ vproof!(c17_reader_partial_short, 10, {
         }
     }
 });
+
+// ---- UNREGISTERED PROBES (all four time out at 900 s): one step of the state machine, state built directly ----
+/// a partial chunk has just been used up; the source continues with `hdr` (a new-format length octet) and data.
+/// `fill_inner` must accept ANY power-of-two continuation chunk (the >= 512 rule is for the first chunk only),
+/// hand out exactly the chunk's octets and leave the source right behind them.
+fn step_after_partial<const HDR: u8, const LEN: usize>() {
+    assert!(BUFFER_SIZE == 8, "scaled build expected");
+    let d: [u8; 3] = kani::any();
+    let stream = [HDR, d[0], d[1], d[2], 0x00, 0x77];
+    let src = &stream[..];
+    let mut rd = core::mem::ManuallyDrop::new(PacketBodyReader {
+        packet_header: PacketHeader::new_fixed(Tag::LiteralData, 0),
+        state: State::Body { buffer: BytesMut::with_capacity(BUFFER_SIZE), source: LimitedReader::Partial(std::io::Read::take(src, 0)) },
+    });
+    let ok = is_okf(rd.fill_inner());
+    assert!(ok, "C17: a continuation chunk after a partial chunk was refused");
+    match &mut rd.state {
+        State::Body { buffer, source } => {
+            assert!(buffer.len() == LEN, "C17: continuation chunk: wrong number of octets handed out");
+            let mut i = 0;
+            while i < 3 {
+                if i < LEN {
+                    assert!(buffer[i] == d[i], "C17: continuation chunk: body octets differ from the source");
+                }
+                i += 1;
+            }
+            let rest = source.get_mut();
+            assert!(rest.len() == 5 - LEN, "C17: source not positioned right behind the chunk");
+        }
+        State::Done { source } => {
+            assert!(LEN == 0, "C17: body ended although the chunk has octets");
+            assert!(source.len() == 5, "C17: source not positioned behind the empty final chunk");
+        }
+        State::Error => assert!(false, "C17: reader in error state after a legal continuation"),
+    }
+}
+// continuation partial chunks of 1 and 2 octets (0xE0 = 2^0, 0xE1 = 2^1), final fixed chunks of 0..3 octets
+vproof!(c17_reader_step_partial_1, 10, { step_after_partial::<0xE0, 1>() });
+vproof!(c17_reader_step_partial_2, 10, { step_after_partial::<0xE1, 2>() });
+vproof!(c17_reader_step_fixed_0, 10, { step_after_partial::<0x00, 0>() });
+vproof!(c17_reader_step_fixed_3, 10, { step_after_partial::<0x03, 3>() });
